@@ -75,9 +75,9 @@ def fail_class(f):
     return f["what"]
 
 
-def report(ctx, focus, fails):
+def report(ctx, focus, fails, classfn=None):
     for f in fails:
-        f["cls2"] = fail_class(f)
+        f["cls2"] = (classfn or fail_class)(f)
     known, new = ctx.classify(fails, lambda f: f["cls2"])
     for f, k, hit in known:
         t = "%s [%s]" % (hit.get("text", ""), k)
